@@ -76,5 +76,8 @@ def gen(tier, rng):
     yield nodegen.c10_script(r, "node-router", 3, "router", "tun", 60 if thorough else 25)
     yield nodegen.c10_script(r, "node-switch", 3, "switch", "tun", 60 if thorough else 25)
     yield nodegen.c10_script(r, "node-hub", 3, "hub", "tap", 60 if thorough else 25)
+    # "for IPv4, IPv6 and MAC ranges alike": claims of every family in the nodes' configuration, nested and overlapping
+    yield nodegen.families_script(r, "node-families", 8 if thorough else 4)
+    yield nodegen.mac_claims_script(r, "node-mac-claims", 6 if thorough else 3)
 
 obs_class, nontrivial_key = _nodecommon.with_node(obs_class, nontrivial_key)
